@@ -40,6 +40,9 @@ class M:
             PC.k2 = k2
             PC.new_cells("pc", formula="lambda: n + k2")
             PC.new_cells("late", formula="lambda: n + lateref")          # lateref does not exist at first
+            PC.new_space("Z").new_cells("zf", formula="lambda: n + 1")   # two grandchild spaces of the SAME name under different children
+            PD = P.new_space("PD")
+            PD.new_space("Z").new_cells("zf", formula="lambda: n + 2")
             NP = P.new_space("NP", formula="lambda r: None")         # nested parametric child
             NP.new_cells("both", formula="lambda: n * 100 + r * 10 + g")
             PS = self.PS = m.new_space("PS", bases=P, formula=SIGS[sig][0])      # derives P's cells and refs; instances of PS inherit them
@@ -72,6 +75,13 @@ class M:
                     PC.lateref = lateref[0]
                 PC.new_cells("pc", formula=pc_src or "lambda: n + k2")
                 PC.new_cells("late", formula="lambda: n + lateref")
+                Z1 = PC.new_space("Z")
+                Z1.n = n
+                Z1.new_cells("zf", formula="lambda: n + 1")
+                PD = St.new_space("PD")
+                Z2 = PD.new_space("Z")
+                Z2.n = n
+                Z2.new_cells("zf", formula="lambda: n + 2")
             return St
 
 
@@ -97,6 +107,9 @@ def _values(sp, with_child):
         out["viaspace"] = call(lambda: sp.cells["viaspace"]())
         out["pc"] = call(lambda: sp.spaces["PC"].cells["pc"]())
         out["late"] = call(lambda: sp.spaces["PC"].cells["late"]())
+        out["z1"] = call(lambda: sp.spaces["PC"].spaces["Z"].cells["zf"]())
+        out["z2"] = call(lambda: sp.spaces["PD"].spaces["Z"].cells["zf"]())
+        out["zdistinct"] = call(lambda: (sp.spaces["PC"].spaces["Z"] is not sp.spaces["PD"].spaces["Z"]) and sp.spaces["PD"].spaces["Z"].parent is sp.spaces["PD"])
     return out
 
 
